@@ -199,7 +199,8 @@ def exw(model):
                 for t in n.targets:
                     if isinstance(t, ast.Attribute) and t.attr == 'extracted':
                         v = n.value
-                        fresh = isinstance(v, ast.List) and not v.elts
+                        fresh = (isinstance(v, ast.List) and not v.elts) or (
+                            isinstance(v, ast.Call) and getattr(v.func, 'id', '') == 'list' and not v.args)
                         saved = False
                         if isinstance(v, ast.Name):
                             vals = T.resolve_local(model, v)
